@@ -104,11 +104,29 @@ var c01Exemplars = []struct {
 		"main.thrift": "namespace go kf.fraw\nstruct P { 1: i32 x }\nservice S { P f(1: P p) }\n"}},
 	{"fastgo-with-value_type_in_container", "fastgo", []string{"value_type_in_container"}, map[string]string{
 		"main.thrift": "namespace go kf.fvt\nstruct P { 1: i32 x }\nstruct Q { 1: list<P> l, 2: map<string, P> m }\n"}},
+	{"raw_struct-default-naming-third-package", "go", []string{"template=raw_struct"}, map[string]string{
+		"main.thrift": "include \"b.thrift\"\nnamespace go kf.raw3.a\nstruct S { 1: b.H h = {\"uuid\": []} }\n",
+		"b.thrift":    "include \"c.thrift\"\nnamespace go kf.raw3.b\nstruct H { 1: list<c.Info> uuid }\n",
+		"c.thrift":    "namespace go kf.raw3.c\nstruct Info { 1: i32 v }\n"}},
 	{"throws-field-named-success", "go", nil, map[string]string{
 		"main.thrift": "namespace go kf.succ\nexception E { 1: string m }\nservice S { i32 f() throws (1: E success) }\n"}},
 	{"underscore-field-in-foreign-struct-literal", "go", nil, map[string]string{
 		"main.thrift":  "include \"other.thrift\"\nnamespace go kf.under.mainpkg\nconst other.B X = {\"_x\": 1}\n",
 		"other.thrift": "namespace go kf.under.other\nstruct B { 1: i32 _x }\n"}},
+}
+
+// c01ProgFor draws a program that avoids the shapes recorded as known findings for this configuration.
+func c01ProgFor(rng *vlib.Rng, backend string, opts []string, stress int) *idl.Program {
+	o := c01Opts(rng, stress)
+	if backend == "fastgo" {
+		o.SameNS = false // two IDL files in one package do not compile with fastgo
+	}
+	for _, x := range opts {
+		if x == "template=raw_struct" {
+			o.Defaults = false // a struct-literal default naming a type of a third package leaves an unused import
+		}
+	}
+	return idl.Generate(rng.Fork("prog"), o)
 }
 
 func c01Opts(rng *vlib.Rng, stress int) idl.GenOpts {
@@ -186,16 +204,16 @@ func C01(r *vlib.Run) {
 	for i, o := range c01BoolOptions {
 		add(ks[i%len(ks)], "go", []string{o}, true)
 		for k := 0; k < r.N(2, 6); k++ {
-			add(idl.Generate(rng.Fork("so"), c01Opts(rng, 1)), "go", []string{o}, rng.Bool())
+			add(c01ProgFor(rng, "go", []string{o}, 1), "go", []string{o}, rng.Bool())
 		}
 	}
 	for _, c := range c01Combos {
 		for k := 0; k < 3; k++ {
-			add(idl.Generate(rng.Fork("co"), c01Opts(rng, 1)), "go", c, true)
+			add(c01ProgFor(rng, "go", c, 1), "go", c, true)
 		}
 		if r.Thorough() {
 			for k := 0; k < 4; k++ {
-				add(idl.Generate(rng.Fork("co"), c01Opts(rng, 2)), "go", c, rng.Bool())
+				add(c01ProgFor(rng, "go", c, 2), "go", c, rng.Bool())
 			}
 		}
 	}
@@ -209,9 +227,7 @@ func C01(r *vlib.Run) {
 		p := idl.Generate(rng.Fork("p"), c01Opts(rng, i%3))
 		add(p, "go", nil, i%2 == 0)
 		if i%3 == 0 {
-			fo := c01Opts(rng, i%3)
-			fo.SameNS = false // two IDL files in one package do not compile with fastgo (known finding)
-			add(idl.Generate(rng.Fork("fp"), fo), "fastgo", nil, true)
+			add(c01ProgFor(rng, "fastgo", nil, i%3), "fastgo", nil, true)
 		}
 		var opts []string
 		for tries := 0; tries < 10; tries++ {
@@ -227,17 +243,15 @@ func C01(r *vlib.Run) {
 		}
 		if opts != nil {
 			if i%7 == 0 {
-				fo := c01Opts(rng, i%3)
-				fo.SameNS = false
 				var fopts []string
 				for _, o := range opts {
 					if !strings.HasPrefix(o, "template=") && o != "no_default_serdes" && o != "value_type_in_container" { // known findings: fastgo needs the default templates and pointer elements
 						fopts = append(fopts, o)
 					}
 				}
-				add(idl.Generate(rng.Fork("fp"), fo), "fastgo", fopts, true)
+				add(c01ProgFor(rng, "fastgo", fopts, i%3), "fastgo", fopts, true)
 			} else {
-				add(p, "go", opts, true)
+				add(c01ProgFor(rng, "go", opts, i%3), "go", opts, true)
 			}
 		}
 	}
